@@ -26,6 +26,9 @@ func init() {
 			"Not covered: flows of package-level slices through struct fields (stated gap), races inside the dependency, actual schedules.",
 		Run: runC13,
 	})
+	mutant(&Mutant{Name: "c13-command-input-file-shared-between-calls", Property: "C13", File: "minify.go",
+		Old: "if in, err = os.CreateTemp(\"\", \"minify-in-*\"+ext); err != nil {", New: "if in, err = os.Create(os.TempDir() + \"/minify-in\" + ext); err != nil {",
+		Rule: "R13.8", Construct: "os.Create on a composed name"})
 	mutant(&Mutant{Name: "c13-xml-writes-option", Property: "C13", File: "xml/xml.go",
 		Old: "\tomitSpace := true // on true the next text token must not start with a space\n", New: "\tomitSpace := true // on true the next text token must not start with a space\n\to.KeepWhitespace = o.KeepWhitespace || false\n",
 		Rule: "R13.1", Construct: "xml.(*Minifier).Minify"})
@@ -79,6 +82,7 @@ func runC13(c *Ctx) {
 	c.r135()
 	c.r136()
 	c.r137()
+	c.r138()
 }
 
 // R13.6: pooled / shared scratch objects do not escape.
@@ -1233,4 +1237,56 @@ func (c *Ctx) poolUseAfterRelease(rule string) {
 			"bytes of an object already given back to the pool are still read ("+strings.Join(bad, "; ")+"): a concurrent call that takes the object from the pool overwrites them meanwhile")
 	}
 	c.R.Note("R13.6: %d functions release a pooled object, %d pool getters, %d pool putters", n, len(getters), len(putters))
+}
+
+// R13.8: files a call creates for its own use have names no other call can have.
+func (c *Ctx) r138() {
+	const rule = "R13.8"
+	c.R.Rule(rule, "calls on one registry run concurrently; a call that exchanges data with an external command through files (cmdMinifier.Minify: `$in`, `$out`) must not share those files with another call of the same minifier. In cmdMinifier.Minify and the functions of the package it calls, files are created with os.CreateTemp / os.MkdirTemp, whose names are unique per call — not with os.Create / os.OpenFile / os.WriteFile on a name the code composes (a name built from the process id, the minifier's address and the argument index is the same for every call of that minifier: overlapping calls read each other's input and return each other's output)")
+	pk := c.pkg(rule, "")
+	if pk == nil {
+		return
+	}
+	info := pk.TypesInfo
+	fd := c.fn(rule, pk, "cmdMinifier.Minify")
+	if fd == nil {
+		return
+	}
+	todo := []*ast.FuncDecl{fd}
+	seen := map[*ast.FuncDecl]bool{fd: true}
+	temps, bad := 0, 0
+	for len(todo) > 0 {
+		f := todo[0]
+		todo = todo[1:]
+		ast.Inspect(f.Body, func(x ast.Node) bool {
+			ce, ok := x.(*ast.CallExpr)
+			if !ok {
+				return true
+			}
+			cn := calleeName(info, ce)
+			switch cn {
+			case "os.CreateTemp", "os.MkdirTemp":
+				temps++
+			case "os.Create", "os.OpenFile", "os.WriteFile":
+				bad++
+				c.R.Bad(rule, fmt.Sprintf("minify.%s/%s on a composed name#%d", load.FuncName(f), cn, bad), c.pos(ce), "a file for the call's own use is created under a name the code composes ("+str(ce.Args[0])+"): two overlapping calls of the same command minifier use the same file, read each other's input and deliver each other's output")
+			}
+			if fo, _ := callee(info, ce).(*types.Func); fo != nil && fo.Pkg() == pk.Types {
+				name := fo.Name()
+				if sig, ok := fo.Type().(*types.Signature); ok && sig.Recv() != nil {
+					name = namedTypeName(deref(sig.Recv().Type()))
+					name = name[strings.LastIndex(name, ".")+1:] + "." + fo.Name()
+				}
+				if d := load.Func(pk, name); d != nil && d.Body != nil && !seen[d] {
+					seen[d] = true
+					todo = append(todo, d)
+				}
+			}
+			return true
+		})
+	}
+	c.R.Floor(rule, "temporary files created by the command minifier", temps, 2)
+	if bad == 0 {
+		c.R.OK(rule, "minify.cmdMinifier.Minify/files created by os.CreateTemp only", c.pos(fd), fmt.Sprintf("%d creations, all with per-call unique names", temps))
+	}
 }
